@@ -162,6 +162,30 @@ static int run(int argc, char ** argv)
       auto v = ev("ode");
       v.str("stepper", stp).num("dst", a).num("a", b).num("b", c2).dbl("T", T).num("nsteps", ns).num("stages", stages).vec("out", coeffs_of(e[a]));
       sink.emit(v);
+    } else if (op == "lift") {
+      // lift dst src : logs lift(e[src]) (SO2 -> SO3, SE2 -> SE3) and stores project(lift(e[src])) in e[dst]
+      int a = 0, b = 0;
+      is >> a >> b;
+      if constexpr (std::is_same_v<GG, smooth::SO2<S>>) {
+        const smooth::SO3<S> L = e[b].lift_so3();
+        e[a]                   = L.project_so2();
+        Eigen::Matrix<S, 4, 1> lc;
+        Desc<smooth::SO3<S>>::get(L, lc.data());
+        auto v = ev("lift");
+        v.num("dst", a).num("a", b).vec("lifted", lc).vec("out", coeffs_of(e[a]));
+        sink.emit(v);
+      } else if constexpr (std::is_same_v<GG, smooth::SE2<S>>) {
+        const smooth::SE3<S> L = e[b].lift_se3();
+        e[a]                   = L.project_se2();
+        Eigen::Matrix<S, 7, 1> lc;
+        Desc<smooth::SE3<S>>::get(L, lc.data());
+        auto v = ev("lift");
+        v.num("dst", a).num("a", b).vec("lifted", lc).vec("out", coeffs_of(e[a]));
+        sink.emit(v);
+      } else {
+        std::fprintf(stderr, "lift is only defined for SO2 / SE2\n");
+        return 2;
+      }
     } else {
       int a = 0, b = 0, c2 = 0;
       is >> a >> b >> c2;
